@@ -118,7 +118,10 @@ Inductive probe :=
 | PDid (e : did) (fb : option did)       (* an int/str key, present or absent *)
 | PData (d : dat) (as_did : option did)  (* a data object of the universe *)
 | PNid (n : nat) (fb : option did)       (* the node_id of node n (live or removed) *)
-| PNode (n : nat) (fb : option did)      (* the Node object n, live in this tree *)
+| PNode (n : nat) (cont : option (option did))
+                                         (* the Node object n, live in this tree; cont = Some fb: [n in tree] is probed
+                                            too and fb is what calc_data_id answers for the Node object (None: it raises,
+                                            e.g. the default hash() on the unhashable Node) *)
 | PCount.
 
 (* a result that may be "the callback raised" *)
@@ -138,15 +141,19 @@ Definition sx_probe (t : tstate) (p : probe) : sx :=
       L [ sx_cb sx_ids (lk_find_all_data t d);                (* find_all(d) *)
           sx_cb sx_onat (lk_find_first_data t d);             (* find_first(d) *)
           sx_cb sx_bool (lk_contains_data t d);               (* d in tree *)
-          sx_res (lk_getitem t (LData d a)) ]                 (* tree[d] *)
+          sx_res (lk_getitem t (LData d a));                  (* tree[d] *)
+          sx_cb sx_did (lk_did_of_new t d None) ]             (* tree.calc_data_id(d): the id a new node for d gets *)
   | PNid n fb =>
       L [ sx_onat (lk_find_nodeid t n);                       (* find_first(node_id=k) *)
           sx_res (lk_getitem t (LNid n fb)) ]                 (* tree[k] *)
-  | PNode n fb =>
+  | PNode n cont =>
       L [ sx_ids (lk_get_clones t n false);                   (* n.get_clones() *)
           sx_ids (lk_get_clones t n true);                    (* n.get_clones(add_self=True) *)
           sx_bool (lk_is_clone t n);                          (* n.is_clone() *)
-          sx_cb sx_bool (lk_contains_node t n fb) ]           (* n in tree *)
+          match cont with                                     (* n in tree *)
+          | Some fb => sx_cb sx_bool (lk_contains_node t n fb)
+          | None => L []
+          end ]
   | PCount =>
       L [ sx_nat (lk_count t); sx_nat (lk_count_unique t) ]   (* tree.count = len(tree), tree.count_unique *)
   end.
